@@ -41,6 +41,12 @@ func main() {
 		gen(args[2], seed, n, args[5])
 	case "exec":
 		inTest(func(t *testing.T) { execOps(t, args[3], args[4]) })
+	case "table":
+		if len(args) == 4 && args[2] == "regfacts" {
+			writeRegFacts(args[3])
+		} else {
+			os.Exit(2)
+		}
 	case "oracle":
 		inTest(func(t *testing.T) { oracleOps(t, args[3], args[4]) })
 	default:
